@@ -249,6 +249,24 @@ def wfList : List S → Bool
   | s :: r => wf s && wfList r
 end
 
+/-- the default of a node, if any, has no null members -/
+def attrClean (a : Attr) : Bool := match a.dflt with | some d => !hasNullProp d | none => true
+
+mutual
+/-- no default anywhere in the schema contains an explicit null member -/
+def cleanDefaults : S → Bool
+  | .leaf a _ => attrClean a
+  | .obj a _ props _ => attrClean a && cleanProps props
+  | .arr a items => attrClean a && cleanDefaults items
+  | .comb a _ bs => attrClean a && cleanList bs
+def cleanProps : List (String × S) → Bool
+  | [] => true
+  | (_, s) :: r => cleanDefaults s && cleanProps r
+def cleanList : List S → Bool
+  | [] => true
+  | s :: r => cleanDefaults s && cleanList r
+end
+
 /-- the property's reading: only ABSENT properties receive defaults -/
 def specCtx (c : Ctx) : Ctx := { c with nullIsAbsent := false }
 
